@@ -18,7 +18,7 @@ Tie between the Lean models (`Model/Affine.lean`, `Model/Bridge.lean`) and the r
 * `sbs` cases: `shortest_bridging_seq` (legs via way-stations, inverse_weight=.5).
 * `tps` / `mls` cases: landmarks map to landmarks with tolerance (oracle only; a TEST, not a proof).
 """
-import warnings, random, copy
+import warnings, copy
 from fractions import Fraction as F
 import numpy as np
 import pandas as pd
@@ -1061,8 +1061,7 @@ def gen_cases(ctx):
             qs = [gen_query(r, spec) for _ in range(ctx.budget(14, 20))]
         for q in qs:
             yield 'bridge', dict(spec, query=q, world=gen_world(r, spec['frames']),
-                                 dtype=r.choice(['float64', 'float64', 'float64', 'float32', 'list', 'frame'])
-                                 if True else 'float64')
+                                 dtype=r.choice(['float64', 'float64', 'float64', 'float32', 'list', 'frame']))
     if thorough and not ctx.search_mode:
         yield from exhaustive3(r)
     for _ in range(ctx.budget(300, 5000) * boost):
@@ -1083,11 +1082,6 @@ def gen_cases(ctx):
             yield 'sbs', dict(spec, query=q, world=gen_world(r, spec['frames']))
     for _ in range(ctx.budget(10, 80)):
         yield 'landmarks', dict(kind2=r.choice(['tps', 'mls']), n=r.choice([5, 8, 12, 20]), seed=r.randrange(10 ** 9))
-
-
-def float32_safe(case):
-    """float32 input is only used when the source coordinates are exactly representable in float32."""
-    return True
 
 
 def run(ctx):
